@@ -192,6 +192,29 @@ From Bio.Proofs Require ImpProofsG.
    model's, for every string. *)
 Theorem C20_extract_single_char_is_source : forall s,
   ImpGen.imp_smtext_extractSingleChar s
-  = match extract_single_char s with Ok b => GoSem.Ret (b, false) | _ => GoSem.Ret (0%N, true) end.
+  = match extract_single_char s with Ok b => GoSem.Ret (b, 0%Z) | _ => GoSem.Ret (0%N, 2%Z) end.
 Proof. exact ImpProofsG.imp_extractSingleChar. Qed.
 Print Assumptions C20_extract_single_char_is_source.
+
+From Bio.Proofs Require ImpProofsO.
+
+(* ReadNCBI as translated from smtext.go — `for sc.Scan()`, blank and comment lines, the
+   header row (the non-space fields through extractSingleChar; an empty header leaves chars
+   nil and the next line is a header again), the value rows (the field count, ParseFloat
+   through the oracle, m[[2]byte{c, chars[i]}] = x), the final sc.Err() — folds the model's
+   read_step over the scanner's tokens: the same matrix, an error exactly where the model has
+   one or the scanner reports one.  The *bufio.Scanner is GoSem.go_scanner (tokens to come
+   and the error Err() reports after them; which bytes make which tokens, and when a line is
+   too long for the scanner, is Model/Smtext.line_items). *)
+Theorem C20_read_ncbi_is_source : forall o fuel cur (toks : list bytes) code, (length toks < fuel)%nat ->
+  ImpProofsO.nc_agrees code (fold_left (read_step o) (map (@Rec bytes) toks) (Ok ([], [])))
+    (ImpGen.imp_smtext_ReadNCBI fuel o (GoSem.Scanner cur toks code false)).
+Proof. exact ImpProofsO.imp_ReadNCBI. Qed.
+Print Assumptions C20_read_ncbi_is_source.
+
+Example C20_source_read_example :
+  let o := {| f_parse := [(bs "1", bs "1"); (bs "-2", bs "-2")]; f_fmt := [] |} in
+  ImpGen.imp_smtext_ReadNCBI 9 o (GoSem.Scanner [] [bs "# c"; bs "  A  *"; bs "A 1 -2"; bs "* -2 1"] 0%Z false)
+  = GoSem.Ret (GoSem.Scanner [] [] 0%Z true,
+      ([((65, 65), bs "1"); ((65, 255), bs "-2"); ((255, 65), bs "-2"); ((255, 255), bs "1")]%N, 0%Z)).
+Proof. vm_compute. reflexivity. Qed.
